@@ -64,8 +64,11 @@ func genScript(c *scriptCase) {
 		c.files[fmt.Sprintf("C%d.php", k)] = sb.String()
 	}
 	for g := 0; g < c.G; g++ {
-		c.files[fmt.Sprintf("lib%d.php", g)] = fmt.Sprintf("<?php\nnamespace %s;\nfunction libf%d() { return \"L%d\"; }\nfunction libg%d($x) { return $x + %d; }\n", scriptNS, g, g, g, g)
+		// the top-level variables make the file's load register global cells (RegisterGlobalContext)
+		// for names that other coroutines bind with `global` at the same time
+		c.files[fmt.Sprintf("lib%d.php", g)] = fmt.Sprintf("<?php\nnamespace %s;\n$vxh0 = %d;\n$vxh1 = %d;\nfunction libf%d() { return \"L%d\"; }\nfunction libg%d($x) { return $x + %d; }\n", scriptNS, g, g, g, g, g, g)
 	}
+	c.files["gi_inc.php"] = fmt.Sprintf("<?php\nnamespace %s;\n$vxgi = \"from-inc\";\nfunction giIncRead() { global $vxgi; return $vxgi; }\n", scriptNS)
 	c.shared = 2 + r.Intn(4)
 	c.expect = make([][]expectTok, c.G)
 
@@ -144,6 +147,11 @@ func genScript(c *scriptCase) {
 				tok("dod", "y", fmt.Sprintf("yn(defined(\"VX10O_%d_%d\"))", g, ownConst))
 			default:
 				v := r.Intn(2)
+				if r.Intn(2) == 0 {
+					// bind a global that no file had at top level when the coroutines started
+					fmt.Fprintf(&sb, "  global $vxh%d;\n", v)
+					continue
+				}
 				fmt.Fprintf(&sb, "  global $vxg%d;\n", v)
 				tok(fmt.Sprintf("g%d", v), fmt.Sprintf("%d", 11*(v+1)), fmt.Sprintf("$vxg%d", v))
 			}
@@ -151,6 +159,14 @@ func genScript(c *scriptCase) {
 		sb.WriteString("  $ch->send($id . \" \" . $r);\n}\n")
 		fmt.Fprintf(&sb, "function start%d($ch, $id) { spawn(function() use ($ch, $id) { work%d($ch, $id); }); }\n", g, g)
 	}
+	// deterministic prologue (ordered by two channels): a coroutine binds `global $vxgi`
+	// before the name exists anywhere, then a file with a top-level $vxgi is included, then the
+	// coroutine writes through its binding. Every later `global $vxgi` must name that same
+	// cell, i.e. read the coroutine's write.
+	sb.WriteString("function giRead() { global $vxgi; return $vxgi; }\n")
+	sb.WriteString("function giStart($go, $done) { spawn(function() use ($go, $done) { global $vxgi; $done->send(\"bound\"); $go->receive(); $vxgi = \"written-by-coroutine\"; $done->send(\"written\"); }); }\n")
+	sb.WriteString("$giGo = new Channel();\n$giDone = new Channel();\ngiStart($giGo, $giDone);\n$giDone->receive();\ninclude __DIR__ . \"/gi_inc.php\";\n$giGo->send(1);\n$giDone->receive();\n")
+	sb.WriteString("echo \"GI \", giRead(), \" \", giIncRead(), \"\\n\";\n")
 	sb.WriteString("$vxg0 = 11;\n$vxg1 = 22;\n")
 	fmt.Fprintf(&sb, "$ch = new Channel(%d);\n", c.G+1)
 	for g := 0; g < c.G; g++ {
@@ -229,6 +245,14 @@ func (c *scriptCase) judgeOutput(stdout string) (anoms [][2]string, complete boo
 			seen[key] = true
 			anoms = append(anoms, [2]string{key, what})
 		}
+	}
+	for _, line := range strings.Split(stdout, "\n") {
+		if strings.HasPrefix(line, "GI ") && line != "GI written-by-coroutine written-by-coroutine" {
+			add("script/global-identity/write-through-earlier-binding-lost", fmt.Sprintf("a coroutine bound `global $vxgi` before the name existed, a file with a top-level $vxgi was included, then the coroutine assigned \"written-by-coroutine\" through its binding; later `global $vxgi` bindings (function of the main script, function of the included file) read %q: they name another cell than the one handed out first", strings.TrimPrefix(line, "GI ")))
+		}
+	}
+	if !strings.Contains(stdout, "GI ") {
+		add("script/global-identity/missing", "the global-identity prologue printed nothing")
 	}
 	accepted := map[string]int{}
 	attempted := map[string]int{}
